@@ -15,7 +15,7 @@ Carve-outs (spec answers "U", counted, not judged):
   * "=v*" when only a weak / differently spelled truncation of the package version equals v
     (1* vs 1a, 1_alpha* vs 1_alpha1, 1.0* vs 1.00, 1-r0* vs 1);
   * a USE dependency without (+)/(-) default on a flag that is not in the package's IUSE.
-Domain: package USE is a subset of IUSE; first version components carry no leading zero (the
+Domain: package USE need not be a subset of IUSE (undeclared flags in USE are covered); first version components carry no leading zero (the
 comparison of those is C01's subject); only static USE dependencies ([x?]/[x=] need a parent).
 """
 from concurrent.futures import ThreadPoolExecutor
@@ -190,7 +190,7 @@ def rand_cases(r, n_atoms, per_atom):
         for _ in range(per_atom):
             pv = perturb(r, v) if r.random() < 0.85 else rand_ver(r)
             iuse = [f for f in flags if r.random() < 0.6]
-            use = [f for f in iuse if r.random() < 0.5]
+            use = [f for f in flags if r.random() < (0.5 if f in iuse else 0.3)]     # USE may hold undeclared flags
             p = dict(blk="rnd", kind="pkg", cat="c", pkg="p", op="", ver=pv,
                      slot=(slot if slot and r.random() < 0.7 else r.choice(["0", "1.2"])),
                      subslot=(a["subslot"] if a["subslot"] and r.random() < 0.7 else r.choice(["0", "2a"])),
@@ -208,7 +208,7 @@ def run(ck):
                "against perturbed packages, each evaluated with the real atom.match for the atom and its ! and !! forms; "
                "non-trivial = distinct pair whose specified answer is definite (not 'Unspecified')")
     ck.assumptions = [
-        "package USE is a subset of IUSE; static USE dependencies only",
+        "static USE dependencies only; package USE may contain flags outside IUSE (then only the default counts)",
         "first numeric version component without leading zero (C01 covers version comparison itself)",
         "'=v*' against a package whose only equal truncation is weak or differently spelled, and a USE dependency "
         "without default on a flag outside IUSE, are left open by PMS: counted, not judged",
